@@ -36,7 +36,7 @@ RULE = (
     'history contains a load or listing after an overwrite, delete or progress of the saved process; distinct = distinct '
     'event-log digest.'
 )
-BUDGET = {'quick': (8000, 55), 'thorough': (800_000, 600)}
+BUDGET = {'quick': (40000, 55), 'thorough': (800_000, 600)}
 COMPONENTS = {
     'real': ['plumpy.persistence.InMemoryPersister', 'plumpy.persistence.PicklePersister (real files, os.walk, os.remove, '
              'pickle)', 'plumpy.persistence.Bundle / Savable', 'plumpy.processes.Process (live, stepping between operations)'],
